@@ -229,6 +229,10 @@ func (s *geoSelector) Select(ctx context.Context, servicePath, serviceMethod str
 	minNum := math.MaxFloat64
 	for _, gs := range s.servers {
 		d := getDistanceFrom(s.Latitude, s.Longitude, gs.Latitude, gs.Longitude)
+		if math.IsNaN(d) {
+			// an undefined distance (NaN/Inf coordinates) is the farthest, not unselectable
+			d = math.MaxFloat64
+		}
 		if d < minNum {
 			server = []string{gs.Server}
 			minNum = d
